@@ -80,6 +80,12 @@ let alter_line line =
   let n = int_of_string toks.(2) in
   let arms = Stdlib.List.init n (fun i ->
       let s = unhex toks.(3 + i) in
+      if s.[0] = 'm' then
+        (* m<type><null><default><attr><generated>:<column> *)
+        let b i = s.[1 + i] = '1' in
+        { a_kind = KModCol { k_type = b 0; k_null = b 1; k_default = b 2; k_attr = b 3; k_generated = b 4 };
+          a_key = bytes_of_string (String.sub s 7 (String.length s - 7)) }
+      else
       let kind = match s.[0] with
         | 'o' -> KOther | 'd' -> KDropConst | 'c' -> KCheckNamed | 'u' -> KCheckUnnamed
         | 'g' -> KGenerated | 'a' -> KAttr | _ -> failwith "arm kind" in
